@@ -22,7 +22,7 @@ Proof. unfold lookup_def. hnt ltac:(apply hn_lookup_def_aux). Qed.
 Lemma hn_root_of id : hn (root_of id).
 Proof. unfold root_of. hnt ltac:(apply hn_root_of_aux). Qed.
 
-Ltac hknown := first [ (apply hn_ro; apply ro_arr_layout; intros; apply ro_same_layout) | apply hn_lookup_def | apply hn_lookup_def_aux | apply hn_root_of | apply hn_root_of_aux | apply hn_on_chain_aux | apply hn_nonrec_ancestor_aux | apply hn_abs_val
+Ltac hknown := first [ (apply hn_ro; [apply ro_arr_layout; intros; apply ro_same_layout | apply nb_arr_layout; intros; apply nb_same_layout]) | apply hn_lookup_def | apply hn_lookup_def_aux | apply hn_root_of | apply hn_root_of_aux | apply hn_on_chain_aux | apply hn_nonrec_ancestor_aux | apply hn_abs_val
                      | (apply hn_mapM; intros ?) | (apply hn_iterM; intros ?) ].
 
 
@@ -58,7 +58,7 @@ Proof. intros H. apply trR_case_chain. apply Forall_forall. intros p Hin. apply 
 Ltac noself m := lazymatch m with context [self] => fail | _ => idtac end.
 Ltac ht known :=
   repeat first
-    [ apply tr_failm | apply tr_rt_error | apply tr_error_cls | apply tr_ret_none
+    [ (apply tr_failm; okf) | apply tr_rt_error | apply tr_error_cls | apply tr_ret_none
     | match goal with |- tr _ (ret _) (fun _ _ => True) => eapply tr_true; apply tr_ret end
     | match goal with |- tr _ (ret _) (fun r s => resok r s) => eapply tr_post; [apply tr_ret | try solve [resok_leaf]] end
     | known
@@ -91,8 +91,8 @@ Ltac ht known :=
       | |- tr _ (bind (copy_val _ _) _) _ => eapply tr_bind; [stab2 | apply (proj1 (copy_tr _)); [stab2 | ] | intros ?]
       | |- tr _ (bind (bind _ _) _) _ => apply tr_assoc
       | |- tr _ (bind (ret _) _) _ => apply tr_ret_bind
-      | |- tr _ (bind (failm _) _) _ => apply tr_fail_bind
-      | |- tr _ (bind (crash _) _) _ => apply tr_fail_bind
+      | |- tr _ (bind (failm _) _) _ => (apply tr_fail_bind; okf)
+      | |- tr _ (bind (crash _) _) _ => (apply tr_fail_bind; okf)
       | |- tr _ (bind (rt_error _ _) _) _ => apply tr_error_bind
       | |- tr _ (bind (not_defined_error _ _) _) _ => apply tr_error_bind
       | |- tr _ (bind (array_direct_error _ _) _) _ => apply tr_error_bind
@@ -141,5 +141,6 @@ Proof.
   intros SP. unfold eval_body.
   ht evk.
   all: try solve [ent].
+  all: try solve [bad_contra].
 Qed.
 End Level3.
